@@ -420,6 +420,9 @@ def oracle_fails(pid, op, orc, op_core=None):
         a = orc.get("alloc")
         if a is not None and a not in ("0", "panic"):
             out.append(f"alloc={a}")
+        a = orc.get("findalloc")
+        if a is not None and a != "0":
+            out.append(f"findalloc={a} (heap allocations during a search that finds nothing)")
         a = orc.get("redballoc")
         if a is not None and a not in ("0", "panic"):
             out.append(f"redballoc={a} (heap allocations inside RedbValue::from_bytes)")
